@@ -37,6 +37,12 @@ def build(spec, fresh=False):
         if key not in _dyn:
             _dyn[key] = type(str("Custom" + parent.__name__ + spec["enz"].get("name", "Syn")), (parent,), {"cutter": cutter_of(spec["enz"])})
         return _dyn[key]
+    if "sibling_of" in spec:        # a user class written next to a kit class: same bases, a signature of its own
+        model = build(spec["sibling_of"])
+        key = repr(sorted(spec.items(), key=str))
+        if key not in _dyn:
+            _dyn[key] = type(str(spec.get("name") or ("Lab" + model.__name__)), model.__bases__, {"signature": tuple(spec["sig"])})
+        return _dyn[key]
     key = repr(sorted(spec.items(), key=str))
     if not fresh and key in _dyn:
         return _dyn[key]
